@@ -278,6 +278,52 @@ fn family<X: Ptr>(c: &mut Ctx, kind: &str, fam: &[Item<X>], addrs: &[usize]) {
     }
 }
 
+/// A referent whose equality is only partial (irreflexive NaN, -0.0 == 0.0) and whose order is only partial: the
+/// relations on the pointers must still be exactly those of `Option<&T>` - in particular a pointer to a NaN is not
+/// equal to itself or to its clone (an identity fast path in `eq` would make it so).  Model-independent.
+#[derive(PartialEq, PartialOrd, Debug)]
+struct F(f64);
+unsafe impl RcObject for F {
+    fn pop_edges(&mut self, _out: &mut Vec<Rc<Self>>) {}
+}
+
+fn partial_family(c: &mut Ctx) {
+    let g = circ::cs();
+    let vals = [1.0f64, 2.0, f64::NAN, f64::NAN, -0.0, 0.0, f64::INFINITY];
+    let objs: Vec<Rc<F>> = vals.iter().map(|v| Rc::new(F(*v))).collect();
+    let mut fam: Vec<(String, Rc<F>)> = vec![("null".into(), Rc::null()), ("null.with_tag(1)".into(), Rc::null().with_tag(1))];
+    for (i, o) in objs.iter().enumerate() {
+        fam.push((format!("F({:?})#{}", vals[i], i), o.clone()));
+        fam.push((format!("F({:?})#{} (second clone)", vals[i], i), o.clone()));
+        fam.push((format!("F({:?})#{}.with_tag(1)", vals[i], i), o.clone().with_tag(1)));
+    }
+    for (dx, x) in &fam {
+        for (dy, y) in &fam {
+            let (rx, ry) = (x.as_ref(), y.as_ref());
+            let d = || format!("rc(partial payload): {} vs {}", dx, dy);
+            c.prop((x == y) == (rx == ry), || format!("{} : == is {} but as_ref()s compare {}", d(), x == y, rx == ry));
+            c.prop((x != y) == (rx != ry), || format!("{} : != is {} but as_ref()s give {}", d(), x != y, rx != ry));
+            c.prop(x.partial_cmp(y) == rx.partial_cmp(&ry), || {
+                format!("{} : partial_cmp is {:?} but as_ref()s give {:?}", d(), x.partial_cmp(y), rx.partial_cmp(&ry))
+            });
+            c.prop((x < y) == (rx < ry) && (x <= y) == (rx <= ry) && (x > y) == (rx > ry) && (x >= y) == (rx >= ry), || {
+                format!("{} : < <= > >= differ from those of the as_ref()s", d())
+            });
+            let (sx, sy) = (x.snapshot(&g), y.snapshot(&g));
+            let d = || format!("snap(partial payload): {} vs {}", dx, dy);
+            c.prop((sx == sy) == (rx == ry), || format!("{} : == is {} but as_ref()s compare {}", d(), sx == sy, rx == ry));
+            c.prop((sx != sy) == (rx != ry), || format!("{} : != is {} but as_ref()s give {}", d(), sx != sy, rx != ry));
+            c.prop(sx.partial_cmp(&sy) == rx.partial_cmp(&ry), || {
+                format!("{} : partial_cmp is {:?} but as_ref()s give {:?}", d(), sx.partial_cmp(&sy), rx.partial_cmp(&ry))
+            });
+            c.prop((sx < sy) == (rx < ry) && (sx <= sy) == (rx <= ry) && (sx > sy) == (rx > ry) && (sx >= sy) == (rx >= ry), || {
+                format!("{} : < <= > >= differ from those of the as_ref()s", d())
+            });
+        }
+    }
+    drop(g);
+}
+
 /// One collect + try_advance round; advances the global epoch by one when nobody else is pinned.
 fn epoch_round() {
     let g = circ::cs();
@@ -420,6 +466,7 @@ pub fn run(out_path: &str, seed: u64, thorough: bool) -> (u64, u64, u64) {
     drop(fam);
     drop(cell);
     drop(objs);
+    partial_family(&mut c);
     let (props, fails) = (c.props, c.propfail);
     (c.out.finish(), props, fails)
 }
